@@ -101,6 +101,11 @@ func vReplay(idx int, sc *vScript) vResult { //nolint:cyclop,gocognit
 	fb := New()
 	covered := map[int]map[int]bool{}
 	pieces := map[int]map[[2]int]bool{}
+	// hostile scripts: a message whose fragments all agree on the total length, stay inside it and carry
+	// position-coded bytes is an honest message sent with several partitions (e.g. retransmitted with
+	// another fragment size): what surfaces for it must still be the original, with no byte missing
+	msgLen := map[int]int{}
+	inconsistent := map[int]bool{}
 	nextPop := 0
 	viol := func(format string, a ...any) { res.Violations = append(res.Violations, fmt.Sprintf(format, a...)) }
 	div := func(format string, a ...any) { res.Diverge = append(res.Diverge, fmt.Sprintf(format, a...)) }
@@ -133,6 +138,13 @@ func vReplay(idx int, sc *vScript) vResult { //nolint:cyclop,gocognit
 				div("step %d: push result model hs=%v retx=%v code hs=%v retx=%v", i, st.Hs, st.Retx, hs, retx)
 			}
 			if st.F.Seq >= cursor {
+				if l, ok := msgLen[st.F.Seq]; ok && l != st.F.Len {
+					inconsistent[st.F.Seq] = true
+				}
+				msgLen[st.F.Seq] = st.F.Len
+				if st.F.Junk || st.F.Off+st.F.Flen > st.F.Len {
+					inconsistent[st.F.Seq] = true
+				}
 				if covered[st.F.Seq] == nil {
 					covered[st.F.Seq] = map[int]bool{}
 					pieces[st.F.Seq] = map[[2]int]bool{}
@@ -202,6 +214,20 @@ func vReplay(idx int, sc *vScript) vResult { //nolint:cyclop,gocognit
 			// length, the one at offset 0 supplies the header): only honest senders are held to this
 			if sc.Honest && (hl != len(body) || fo != 0 || fl != len(body)) {
 				viol("step %d: surfaced header length/offset/fragment-length %d/%d/%d for a body of %d bytes", i, hl, fo, fl, len(body))
+			}
+			if !sc.Honest && !inconsistent[seq] && len(pieces[seq]) > 0 {
+				want := make([]byte, msgLen[seq])
+				for p := range want {
+					want[p] = vByte(seq, p)
+				}
+				if !bytes.Equal(body, want) {
+					viol("step %d: surfaced message %d differs from the original (mixed partitions): got %v want %v", i, seq, body, want)
+				}
+				for p := 0; p < msgLen[seq]; p++ {
+					if !covered[seq][p] {
+						viol("step %d: message %d surfaced while byte %d never arrived (mixed partitions)", i, seq, p)
+					}
+				}
 			}
 			if sc.Honest && seq < len(sc.Plan) {
 				want := make([]byte, sc.Plan[seq])
